@@ -1608,21 +1608,42 @@ fn polling_preds(a: &Analysis, v: &mut Vec<Viol>, f: &mut Feat) {
                 // wake is not a stale one
                 continue;
             }
+            // waker identities inherited from an earlier wait on the same stream (its persistent
+            // waker, or the other face of it) may still receive the late wake of that wait
+            let inherited = a.ops[..i]
+                .iter()
+                .any(|p| p.t == o.t && p.wakers.contains(w));
+            if inherited {
+                continue;
+            }
             if o.k == K::StreamNext && wi == 0 {
                 // the stream's own waker is shared by all waits on that stream: a sender of the
                 // PREVIOUS wait may still be about to call wake() on its clone (harmless late
                 // wake); only wakers created within this wait are judged
                 continue;
             }
-            let next = o.wakers[wi + 1];
-            let Some(p) = o.polls.iter().find(|p| p.waker == next) else { continue };
+            // the poll that installed the next waker: polls are in order, and so are the
+            // waker switches (a waker identity can recur with sibling wakers)
+            let mut idx = 0usize;
+            let mut installing: Option<&crate::interp::PollRec> = None;
+            for pr in o.polls.iter() {
+                while idx + 1 < o.wakers.len() && pr.waker != o.wakers[idx] && pr.waker == o.wakers[idx + 1] {
+                    idx += 1;
+                }
+                if idx == wi + 1 {
+                    installing = Some(pr);
+                    break;
+                }
+            }
+            let Some(p) = installing else { continue };
             if p.ready {
                 continue;
             }
             let fired_late = a
                 .notes
                 .iter()
-                .any(|n| n.kind == rt::NOTE_WAKER_FIRED && n.arg as u32 == *w && n.stamp > p.end);
+                // (within this operation: the identity may become current again in a later wait)
+                .any(|n| n.kind == rt::NOTE_WAKER_FIRED && n.arg as u32 == *w && n.stamp > p.end && n.stamp <= retx(o));
             if fired_late {
                 v.push(Viol {
                     pred: "stale_waker",
